@@ -434,3 +434,123 @@ def run_loads(inputs, work, jobs=4, also_unmutated=()):
                 "timeout": rc is None, "msg": bool(re.search(r"^cppcheck: ", allout, re.M)), "out": allout[-300:]}
     with concurrent.futures.ThreadPoolExecutor(max_workers=jobs) as ex:
         return list(ex.map(one, inputs))
+
+
+# ----------------------------------------------------------------------------------------- minimising a fatal configuration
+def load_once(text, d, name="min.cfg"):
+    """-> (signal or 0, timeout, output tail) of loading one configuration text with the real binary"""
+    p = os.path.join(d, name)
+    with open(p, "wb") as f:
+        f.write(text.encode("utf-8", "surrogateescape"))
+    rc, out, err = run_cppcheck(["-q", "--library=" + p, "empty.c"], cwd=d, timeout=120)
+    return (-rc if (rc is not None and rc < 0) else 0), rc is None, (out + err)[-300:]
+
+
+def _ddmin(items, test, budget):
+    """Classic ddmin over a list; test(list) -> True if the failure persists. budget: [remaining runs]."""
+    n = 2
+    while len(items) >= 2 and budget[0] > 0:
+        size = max(1, len(items) // n)
+        chunks = [items[i:i + size] for i in range(0, len(items), size)]
+        reduced = False
+        for i in range(len(chunks)):
+            if budget[0] <= 0:
+                break
+            rest = [x for j, c in enumerate(chunks) if j != i for x in c]
+            budget[0] -= 1
+            if rest and test(rest):
+                items = rest
+                n = max(n - 1, 2)
+                reduced = True
+                break
+        if not reduced:
+            if size == 1:
+                break
+            n = min(len(items), n * 2)
+    return items
+
+
+def minimise(text, d, signal, budget=160):
+    """Shrink a configuration text that kills the loader with `signal`, keeping that outcome. Works on the element tree
+    if the text is well-formed XML, on lines otherwise. -> (minimal text, signature path)"""
+    import xml.etree.ElementTree as ET
+    left = [budget]
+
+    def fails(t):
+        sig, _to, _o = load_once(t, d)
+        return sig == signal
+    try:
+        root = ET.fromstring(text.encode("utf-8", "surrogateescape"))
+    except Exception:
+        lines = text.split("\n")
+        lines = _ddmin(lines, lambda ls: fails("\n".join(ls)), left)
+        return "\n".join(lines), "not-well-formed"
+
+    def ser():
+        return ET.tostring(root, encoding="unicode")
+
+    def shrink(el):
+        kids = list(el)
+        if len(kids) > 0:
+            def test(sub):
+                for k in list(el):
+                    el.remove(k)
+                for k in sub:
+                    el.append(k)
+                ok = fails(ser())
+                return ok
+            keep = _ddmin(kids, test, left) if len(kids) > 1 else kids
+            # ddmin leaves el with the last tested children: restore the kept ones
+            for k in list(el):
+                el.remove(k)
+            for k in keep:
+                el.append(k)
+            if len(keep) == 1 and left[0] > 0:
+                left[0] -= 1
+                el.remove(keep[0])
+                if not fails(ser()):
+                    el.append(keep[0])
+        for name in list(el.attrib):
+            if left[0] <= 0:
+                break
+            v = el.attrib.pop(name)
+            left[0] -= 1
+            if not fails(ser()):
+                el.attrib[name] = v
+        if el.text and el.text.strip() and left[0] > 0:
+            t = el.text
+            el.text = None
+            left[0] -= 1
+            if not fails(ser()):
+                el.text = t
+        for k in list(el):
+            k.tail = None
+            shrink(k)
+    shrink(root)
+
+    # canonical names: an element / attribute value that does not matter for the failure becomes "x"
+    for el in root.iter():
+        if left[0] <= 0:
+            break
+        if el is not root and el.tag != "x":
+            t = el.tag
+            el.tag = "x"
+            left[0] -= 1
+            if not fails(ser()):
+                el.tag = t
+        for name in list(el.attrib):
+            if el.attrib[name] != "x" and left[0] > 0:
+                v = el.attrib[name]
+                el.attrib[name] = "x"
+                left[0] -= 1
+                if not fails(ser()):
+                    el.attrib[name] = v
+
+    def path(el):
+        s = el.tag + "".join("@" + a for a in sorted(el.attrib)) + ("#text" if (el.text and el.text.strip()) else "")
+        kids = [path(k) for k in el]
+        return s + ("/" + "+".join(kids) if kids else "")
+    out = ser()
+    if not fails(out):
+        return text, "unstable"
+    return out, path(root)
